@@ -216,13 +216,21 @@ package go_clipper2
 //@ spec perpNumR(pt, l1, l2 Point64) float64 = toReal(pt.X-l1.X)*toReal(l2.Y-l1.Y) - toReal(l2.X-l1.X)*toReal(pt.Y-l1.Y)
 //@ spec perpDenR(l1, l2 Point64) float64 = toReal(l2.X-l1.X)*toReal(l2.X-l1.X) + toReal(l2.Y-l1.Y)*toReal(l2.Y-l1.Y)
 
+//@ spec perpNumI(pt, l1, l2 Point64) int64 = (pt.X-l1.X)*(l2.Y-l1.Y) - (l2.X-l1.X)*(pt.Y-l1.Y)
 //@ func PerpendicDistFromLineSqr64
 //@   props C16 C03
 //@   pure
 //@   requires dom(pt,29) && dom(line1,29) && dom(line2,29)
 //@   ensures [degenerate] line1 == line2 ==> result == 0
-//@   ensures [value] line1 != line2 ==> result * perpDenR(line1, line2) == perpNumR(pt, line1, line2) * perpNumR(pt, line1, line2)
 //@   ensures [nonneg] result >= 0
+
+// the value itself: exact whenever the cross product is exactly representable (2^53), which covers every
+// pair of coordinate differences up to 2^26; beyond that the cross product is still exact in int64 and only its
+// conversion to float64 rounds (relative error 2^-53)
+//@ func PerpendicDistFromLineSqr64 variant exact53
+//@   props C16
+//@   requires dom(pt,29) && dom(line1,29) && dom(line2,29) && absI(perpNumI(pt, line1, line2)) <= pow2(53)
+//@   ensures [value] line1 != line2 ==> result * perpDenR(line1, line2) == perpNumR(pt, line1, line2) * perpNumR(pt, line1, line2)
 
 //@ lemma perpTranslate props C16 C13: forallInt(tx, forallInt(ty, forallInt(px, forallInt(py, forallInt(ax, forallInt(ay, forallInt(bx, forallInt(by, perpNumR(Point64{px+tx, py+ty}, Point64{ax+tx, ay+ty}, Point64{bx+tx, by+ty}) == perpNumR(Point64{px, py}, Point64{ax, ay}, Point64{bx, by}) && perpDenR(Point64{ax+tx, ay+ty}, Point64{bx+tx, by+ty}) == perpDenR(Point64{ax, ay}, Point64{bx, by})))))))))
 //@ lemma perpScale props C16 C13: forallInt(s, forallInt(px, forallInt(py, forallInt(ax, forallInt(ay, forallInt(bx, forallInt(by, perpNumR(Point64{s*px, s*py}, Point64{s*ax, s*ay}, Point64{s*bx, s*by}) == toReal(s)*toReal(s)*perpNumR(Point64{px, py}, Point64{ax, ay}, Point64{bx, by}) && perpDenR(Point64{s*ax, s*ay}, Point64{s*bx, s*by}) == toReal(s)*toReal(s)*perpDenR(Point64{ax, ay}, Point64{bx, by}))))))))
@@ -2396,3 +2404,15 @@ package go_clipper2
 //@   loop 0 entry [crossings-are-taken-bottom-up-then-left-to-right] forall(k, 1, len(c.intersectList), c.intersectList[k-1].pt.Y > c.intersectList[k].pt.Y || (c.intersectList[k-1].pt.Y == c.intersectList[k].pt.Y && c.intersectList[k-1].pt.X <= c.intersectList[k].pt.X))
 //@   loop 0 step [both-edges-move-to-the-crossing] i == old(i) + 1 && c.intersectList[old(i)].edge1.curX == c.intersectList[old(i)].pt.X && c.intersectList[old(i)].edge2.curX == c.intersectList[old(i)].pt.X
 //@   assert after node [only-neighbouring-edges-are-crossed] node != nil ==> (node.edge1.nextInAEL == node.edge2 || node.edge1.prevInAEL == node.edge2)
+
+// PerpendicDistFromLineSqr64 in rounded float arithmetic (C16: "with epsilon 0 only exactly collinear vertices
+// disappear", at every translation inside the 2^29 domain): a point exactly on the line has distance exactly
+// zero, because the function works on coordinate differences (exact in int64) and compares two products of
+// the same exact value; a form on absolute coordinates is equal over the reals but not in float64
+//@ func PerpendicDistFromLineSqr64 variant rounded
+//@   props C16 C13
+//@   floats rounded
+//@   requires dom(pt,29) && dom(line1,29) && dom(line2,29)
+//@   assert after cross#1 [cross-keeps-its-sign] (cross == 0) == (perpNumI(pt, line1, line2) == 0)
+//@   ensures [a-point-on-the-line-has-distance-exactly-zero] perpNumI(pt, line1, line2) == 0 ==> result == 0
+//@   ensures [an-off-line-point-has-positive-distance] (perpNumI(pt, line1, line2) != 0 && line1 != line2) ==> result > 0
